@@ -477,7 +477,10 @@ def run_pspace_indexing(ctx):
     pc = odl.ProductSpace(r3, 3, weighting=2.5)
     pp = odl.ProductSpace(odl.ProductSpace(r3, 2), 3)
     pe = odl.ProductSpace(r3, 3, exponent=1.0)
-    for pn, p in {'plain': ps, 'array-weighted': pw, 'const-weighted': pc, 'nested': pp, 'exponent1': pe}.items():
+    ppc = odl.ProductSpace(odl.ProductSpace(r3, 2), 3, weighting=2.5)
+    ppa = odl.ProductSpace(odl.ProductSpace(r3, 2), 3, weighting=[3.0, 1.0, 0.25], exponent=1.0)
+    for pn, p in {'plain': ps, 'array-weighted': pw, 'const-weighted': pc, 'nested': pp, 'exponent1': pe,
+                  'nested-const-weighted': ppc, 'nested-array-weighted-exp1': ppa}.items():
         # element creation from ready-made parts / raw data of the wrong length is refused (ValueError / TypeError), never
         # answered with an element that has more or fewer parts than its space
         good_parts = [s_.zero() for s_ in p]
@@ -499,8 +502,8 @@ def run_pspace_indexing(ctx):
         x = p.element([np.arange(s.size, dtype=float).reshape(s.shape) + 10 * k if not isinstance(s, odl.ProductSpace)
                        else [np.arange(3.) + kk + 10 * k for kk in range(len(s))] for k, s in enumerate(p)])
         idxs = [0, -1, slice(0, 2), slice(None, None, 2), [2, 0], (1,), (slice(0, 2),), slice(1, None)]
-        if pn == 'nested':
-            idxs += [(1, 0), (slice(0, 2), 1), (slice(None), slice(0, 1))]
+        if pn.startswith('nested'):
+            idxs += [(1, 0), (slice(0, 2), 1), (slice(None), slice(0, 1)), (slice(1, None), 0), (slice(None, None, 2), slice(None))]
         for ix in idxs:
             ctx.ev('derived-spaces')
             ixk = type(ix).__name__ if not isinstance(ix, tuple) else 'tuple'
@@ -514,6 +517,21 @@ def run_pspace_indexing(ctx):
                     ctx.violation('ProductSpace[idx]', cfg, 'x[idx].space!=space[idx]')
                 if isinstance(subsp, odl.ProductSpace) and (p[ix] != subsp or hash(p[ix]) != hash(subsp)):
                     ctx.violation('ProductSpace[idx]', cfg, 'space[idx]!=space[idx]')
+                if isinstance(ix, tuple) and len(ix) == 2 and isinstance(ix[0], (slice, list)) and pn.startswith('nested'):
+                    # outer selection, then the inner index in each selected component: the outer weights (and the exponent) are
+                    # those of the selected outer components
+                    sel = list(range(len(p)))[ix[0]] if isinstance(ix[0], slice) else ix[0]
+                    w = p.weighting
+                    kw = {'exponent': p.exponent}
+                    if hasattr(w, 'array'):
+                        kw['weighting'] = np.asarray(w.array)[sel]
+                    elif getattr(w, 'const', 1.0) != 1.0:
+                        kw['weighting'] = w.const
+                    want = odl.ProductSpace(*[p.spaces[i][ix[1]] for i in sel], **kw)
+                    if subsp != want:
+                        ctx.violation('ProductSpace[idx]', cfg, 'space-of-a-two-level-selection', got=util.srepr(subsp, 120), want=util.srepr(want, 120))
+                    if hasattr(sub, 'space') and sub.space != want:
+                        ctx.violation('ProductSpaceElement[idx]', cfg, 'space-of-a-two-level-selection', got=util.srepr(sub.space, 120), want=util.srepr(want, 120))
                 if isinstance(ix, (slice, list)) and isinstance(subsp, odl.ProductSpace):
                     sel = list(range(len(p)))[ix] if isinstance(ix, slice) else ix
                     if list(subsp.spaces) != [p.spaces[i] for i in sel]:
